@@ -467,4 +467,40 @@ def r18_7(ctx: Ctx) -> RuleResult:
     return rr
 
 
-RULES = [r18_1, r18_2, r18_3, r18_4, r18_5, r18_6, r18_7]
+def r18_8(ctx: Ctx) -> RuleResult:
+    """Without `-f` the sub-commands read the target document from standard input, a text stream, and hand the stream
+    to the library; a document that is not JSON must come back as a decoding error, which the handlers turn into the
+    one-line message and exit status 1 (R18.3).  `load_data` is executed abstractly (exceptions as they run) on a
+    model text stream that yields text no JSON decoder accepts - truncated literals, two values, a single-quoted
+    string, an open string, nothing - and must raise the decoder's error for each; it must not hand the text back as if
+    it were a string document (that fallback is for a `str` argument, which the command line never passes)."""
+    from sa.peval import UNKNOWN
+
+    from .c11 import file_model_class
+    from .model import RAISES
+    from .model import Model
+
+    texts = ["nul", "tru", "1 2", "'single'", '"open', "", "   ", "nope nope", "01", "+1"]
+    rr = RuleResult("R18.8", "a document on standard input that is not JSON is a decoding error", floor=len(texts))
+    fn = ctx.repo.require_func("jsonpath._data.load_data")
+    file_cls = file_model_class()
+    for text in texts:
+        model = Model(ctx, "R18.8")
+        model.whole_bodies = model.exact_exceptions = True
+        got = model.call_function(fn, [file_cls(model, text)])
+        if got is UNKNOWN:
+            raise AnalysisError(f"R18.8: what load_data does with a text stream that yields {text!r} cannot be determined")
+        if got is RAISES:
+            c = str(model.last_raised or "")
+            if "JSONDecodeError" in c or "UnicodeDecodeError" in c:
+                rr.ok(fn.loc(), f"a stream yielding {text!r}: {c.split('.')[-1]}")
+            else:
+                rr.bad(fn, fn.node, f"a text stream that yields {text!r} makes load_data raise {c or 'an unknown exception'}, which the command line does not report as a "
+                       "decoding error", construct=f"load_data(stream {text!r}) raises {c.split('.')[-1]}")
+        else:
+            rr.bad(fn, fn.node, f"a text stream that yields {text!r}, which is not JSON, is loaded as the value {got!r}: `json path -q '$'` prints it and exits 0 "
+                   "instead of reporting a decoding error (the same bytes given with -f FILE are refused)", construct=f"load_data(stream {text!r}) -> {got!r}")
+    return rr
+
+
+RULES = [r18_1, r18_2, r18_3, r18_4, r18_5, r18_6, r18_7, r18_8]
